@@ -10,15 +10,15 @@ CLAIMED = {
  "C01": ("F", "DESIGN.md §7 C01, §3.2",
    "Seeded exploration (engine F): real EncodeBody (client/server role, identity/gzip/deflate/zstd, raw and prost codecs, randomised buffer/yield settings) is driven under a drawn source-readiness schedule and under the all-Ready reference schedule; the emitted bytes must be identical, parse with an independent decoder, and — re-cut at drawn offsets (inside prefixes, inside compressed payloads, 1-byte chunks) and delivered with delays — decode through real Streaming into exactly the original messages, then a clean end. Evidence, not proof.",
    "Trusted: independent frame parser, flate2 write::*/zstd bulk. Per-response opt-out is exercised via server::Grpc in the C02/C05 loopback scenarios."),
- "C02": ("F", "DESIGN.md §7 C02, §3.2",
-   "Seeded exploration (engine F): generated clients call generated servers (raw codec, prost with/without package; all four shapes) over a loopback whose request and response bodies are re-chunked and delayed by the tape; scripted handlers produce k messages then OK or any Status (Unicode message, details, metadata), possibly refusing the call; the oracle is the identity channel on messages, metadata and status in both directions. Evidence, not proof.",
-   "Fault-free configuration only in engine F (no body kills); HTTP/2 multiplexing/fragmentation is engine N (added when built). Trusted: harness handlers and loopback."),
- "C03": ("F", "DESIGN.md §7 C03",
-   "Passive wire monitor on every C01/C02/C06 run: request head (POST, HTTP/2, path, content-type, te), response head (200, content-type), bodies parsed by an independent length-prefix parser and inflated with the announced encoding against the codec's serialization, exactly one grpc-status in a single final trailers block or in body-less headers, no request trailers. Evidence, not proof.",
+ "C02": ("F+N", "DESIGN.md §7 C02, §3.2, §3.3, §13",
+   "Seeded exploration. Engine N: real Server + 1..3 Channels (hyper, h2, Buffer, router) over the simulated network with fragmentation, stalls and randomised HTTP/2 windows/frame size; 1..8 concurrent tagged calls of all shapes multiplexed on the connections, identity-channel oracle per call; a separate fault-injecting configuration kills the connection at a drawn byte offset (never success with wrong/missing data, items a prefix, clean end only after true OK, no hang); the raw-h2 server-view scenario judges status/messages as an independent wire reader. Engine F: generated clients call generated servers (raw codec, prost with/without package; all four shapes) over a loopback whose request and response bodies are re-chunked and delayed by the tape; scripted handlers produce k messages then OK or any Status (Unicode message, details, metadata), possibly refusing the call; the oracle is the identity channel on messages, metadata and status in both directions. Evidence, not proof.",
+   "Engine N varies interleavings through the seams (readiness, stalls, windows, start offsets, handler gaps); tokio's run queue is FIFO. Pipe capacity >= HTTP/2 windows and calls start after SETTINGS settle (DESIGN §13.2). Trusted: harness handlers, loopback, raw h2 peer."),
+ "C03": ("F+N", "DESIGN.md §7 C03, §13",
+   "Engine N true wire views through raw peers written on the h2 crate only: what a raw h2 server receives from a tonic Channel (method, :path, :scheme, content-type, te, body, END_STREAM, no trailers) and what a raw h2 client receives from a tonic Server (status, content-type, DATA, one grpc-status in trailers or END_STREAM headers). Engine F passive wire monitor on every C01/C02/C06 run: request head (POST, HTTP/2, path, content-type, te), response head (200, content-type), bodies parsed by an independent length-prefix parser and inflated with the announced encoding against the codec's serialization, exactly one grpc-status in a single final trailers block or in body-less headers, no request trailers. Evidence, not proof.",
    "'Nothing after trailers' is judged as hyper's HTTP/2 sender consumes a body. In engine F the wire is the http::Request/Response handed to the transport seam."),
- "C04": ("F", "DESIGN.md §7 C04",
+ "C04": ("F+N", "DESIGN.md §7 C04, §13",
    "Seeded exploration + complete enumeration of the two tables (engine F): a scripted hostile peer answers a generated client with arbitrary/malformed grpc-status, grpc-message (bad percent-encoding, bad UTF-8), grpc-status-details-bin (bad base64); every HTTP status 100..=599 without grpc-status; every reset reason 0..=15 as an h2::Error body error; oracle = never panic, always a definite Status, mapping tables of the property. The status round-trip clause is sampled by the C02 loopback runs.",
-   "The for-all-statuses round trip is a pure function: sampled, not decided. Resets through a real hyper::Error are engine N."),
+   "Engine N adds a raw h2 server sending real RST_STREAM(reason) before/after headers/mid-body and HTTP statuses with non-gRPC bodies (the real hyper::Error path), and the raw-client server view judging grpc-message/details as written on the wire. The for-all-statuses round trip is a pure function: sampled, not decided. Known finding: C04/reset-read-as-success-reason-0 (known_findings.json)."),
  "C05": ("F", "DESIGN.md §7 C05",
    "Complete enumeration of the 2048 (server accept, server send, client send, client accept) configurations followed by seeded exploration (engine F): two tonic parties over the loopback, a foreign client peer with arbitrary grpc-accept-encoding/grpc-encoding values and flag bytes against a tonic server, a foreign server peer against a tonic client; oracle = reference negotiation function (chosen in send ∩ offered, UNIMPLEMENTED + exact accept list on refusal, INTERNAL for an ill-flagged message, client sends/advertises exactly its configuration).",
    "Whether a server must compress when it could is not prescribed (probe only)."),
@@ -46,12 +46,12 @@ CLAIMED = {
  "C17": ("F", "DESIGN.md §7 C17",
    "Seeded exploration (engine F): the real GrpcWebClientService in front of a scripted grpc-web server whose body is built by an independent encoder: 0..6 message frames + trailers frame (values with ':' and spaces, repeated names, empty values), delivered in any chunking (inside frame headers, inside the trailers frame, message and trailers in one chunk, 1-byte chunks), truncated at any byte, malformed variants; oracle = same message bytes, full trailer multiset, and an error (never a clean end, hang or busy loop) for a body cut inside a frame.",
    "A cut exactly at a frame boundary is not judged."),
- "C18": ("F", "DESIGN.md §7 C18",
+ "C18": ("F+M", "DESIGN.md §7 C18, §3.4, §13",
    "Seeded exploration (engine F): histories of set/clear/check/watch/next over a 3-service alphabet issued as tasks on the simulator-owned executor through the generated HealthClient -> HealthServer in-process; the tape picks which runnable task is polled, blocked watchers stay pending while later operations run, every watcher is drained at the end; oracle = sequential map model for Check/subscribe and a per-watcher subsequence/convergence/clear rule for Watch.",
-   "Engine F interleaves at await points only (cooperative); preemptive thread schedules are the Miri engine (thorough tier, when built). Trusted base: tokio RwLock/watch."),
- "C08": ("F", "DESIGN.md §7 C08",
+   "Engine F interleaves at await points only (cooperative). Thorough tier adds engine M: 2 writers (one may clear), a checker and a watcher as real threads under Miri's seeded preemptive scheduler (64 seeds x 4 workload modes, preemption rates 0.05..0.2), register-semantics check of every Check, watcher subsequence/convergence/clear rule, plus Miri's data-race/UB detection. Trusted base: tokio RwLock/watch."),
+ "C08": ("F+N", "DESIGN.md §7 C08, §13",
    "Seeded exploration (engine F): metadata maps (ASCII/binary, repeated keys, every length mod 3, reserved-name canaries) on requests, responses, trailers and error statuses cross tonic<->tonic over the loopback (wire tap: canaries never on the wire, -bin values are base64 of the original) and tonic<->foreign peer that pads or does not pad base64; the receiver reads through the typed accessors.",
-   "The accessor clause is a pure function of a map: sampled on every received map, not decided."),
+   "Engine N: the same metadata observed on the real wire by raw h2 peers (after HPACK), including padded/unpadded -bin values from a raw client. The accessor clause is a pure function of a map: sampled on every received map, not decided."),
 }
 
 NA = {
@@ -93,7 +93,8 @@ man = {
  },
  "engines": [
    {"name": "F", "path": "/verif/sim/tsim", "serves_properties": sorted([p for p,(e,_,_,_) in CLAIMED.items() if "F" in e]), "kind_free_text": "frame-level deterministic simulator: own executor, scripted HTTP bodies / message sources / peers, no runtime, no HTTP/2"},
-   {"name": "N", "path": "/verif/sim/simnet + /verif/sim/tsim", "serves_properties": sorted([p for p,(e,_,_,_) in CLAIMED.items() if "N" in e]), "kind_free_text": "net-level deterministic simulator: real tonic/hyper/h2 on a tokio current-thread runtime with paused clock and seeded select!, simulated byte network, scripted connector/listener/peers"},
+   {"name": "M", "path": "/verif/miri", "serves_properties": ["C18"], "kind_free_text": "Miri many-seeds: real std::thread schedules under a seeded preemptive scheduler with data-race detection (thorough tier)"},
+   {"name": "N", "path": "/verif/sim/simnet + /verif/sim/tsim (+ tsim-tls)", "serves_properties": sorted([p for p,(e,_,_,_) in CLAIMED.items() if "N" in e]), "kind_free_text": "net-level deterministic simulator: real tonic/hyper/h2 on a tokio current-thread runtime with paused clock and seeded select!, simulated byte network, scripted connector/listener/peers"},
  ],
  "checks": checks,
  "not_applicable": [{"property_id": k, "reason": v} for k, v in sorted({**NA, **PENDING}.items())],
